@@ -105,6 +105,18 @@ func (e *Engine) harnessPrim(fn *ssa.Function, name string, args []Value) (Value
 		e.assertPC(tAnd(tCmp("<=", lo, t), tCmp("<=", t, hi)))
 		e.recordPrim("i", t)
 		return t, true
+	case "vpSnapshot":
+		// a deep copy of everything reachable from the argument (all fields,
+		// exported or not), to be compared with the live object later
+		cp := snapCopy(args[0], map[*Value]*Value{}, map[*ArrayVal]*ArrayVal{}, map[*MapObj]*MapObj{})
+		return e.opaqueIface(&SnapObj{v: cp}), true
+	case "vpUnchanged":
+		obj, ok := opaqueObj(args[1])
+		sn, ok2 := obj.(*SnapObj)
+		if !ok || !ok2 {
+			unsupported("vpUnchanged without a snapshot")
+		}
+		return snapEq(e, args[0], sn.v, map[[2]*Value]bool{}), true
 	case "vpShared":
 		// number of mutable heap objects (pointer targets, slice backing arrays,
 		// maps) reachable from both arguments; strings, functions and opaque
@@ -841,4 +853,190 @@ func heapWalk(v Value, seen map[any]bool, visit func(id any)) {
 			heapWalk(f, seen, visit)
 		}
 	}
+}
+
+// SnapObj holds a deep copy made by vpSnapshot.
+type SnapObj struct{ v Value }
+
+func snapCopy(v Value, ptrs map[*Value]*Value, arrs map[*ArrayVal]*ArrayVal, maps map[*MapObj]*MapObj) Value {
+	switch x := v.(type) {
+	case PtrVal:
+		if x.slot == nil {
+			return x
+		}
+		if c, ok := ptrs[x.slot]; ok {
+			return PtrVal{c}
+		}
+		c := new(Value)
+		ptrs[x.slot] = c
+		switch (*x.slot).(type) {
+		case *AbsKey, *AbsSet, *AbsSigner, *OptVal, *FmtErr, *RegexObj, *SnapObj:
+			*c = *x.slot // immutable library objects: by identity
+		default:
+			*c = snapCopy(*x.slot, ptrs, arrs, maps)
+		}
+		return PtrVal{c}
+	case *StructVal:
+		n := &StructVal{fields: make([]Value, len(x.fields))}
+		for i, f := range x.fields {
+			n.fields[i] = snapCopy(f, ptrs, arrs, maps)
+		}
+		return n
+	case *ArrayVal:
+		if c, ok := arrs[x]; ok {
+			return c
+		}
+		n := &ArrayVal{elems: make([]Value, len(x.elems))}
+		arrs[x] = n
+		for i, f := range x.elems {
+			n.elems[i] = snapCopy(f, ptrs, arrs, maps)
+		}
+		return n
+	case SliceVal:
+		if x.arr == nil {
+			return x
+		}
+		return SliceVal{arr: snapCopy(x.arr, ptrs, arrs, maps).(*ArrayVal), off: x.off, len: x.len, cap: x.cap}
+	case MapVal:
+		if x.m == nil {
+			return x
+		}
+		if c, ok := maps[x.m]; ok {
+			return MapVal{c}
+		}
+		n := &MapObj{}
+		maps[x.m] = n
+		for _, en := range x.m.entries {
+			n.entries = append(n.entries, &MapEntry{key: snapCopy(en.key, ptrs, arrs, maps), val: snapCopy(en.val, ptrs, arrs, maps)})
+		}
+		return MapVal{n}
+	case IfaceVal:
+		if x.typ == nil {
+			return x
+		}
+		return IfaceVal{typ: x.typ, val: snapCopy(x.val, ptrs, arrs, maps)}
+	case TupleVal:
+		n := make(TupleVal, len(x))
+		for i, f := range x {
+			n[i] = snapCopy(f, ptrs, arrs, maps)
+		}
+		return n
+	}
+	return v
+}
+
+// snapEq: is the live value structurally what the snapshot recorded? Scalars
+// and strings compare symbolically; shapes (nil-ness, lengths, dynamic types,
+// map entries in their stored order) must match exactly.
+func snapEq(e *Engine, a, b Value, seen map[[2]*Value]bool) *Term {
+	switch x := a.(type) {
+	case *Term:
+		y, ok := b.(*Term)
+		if !ok || x.isBool != y.isBool {
+			return tFalse
+		}
+		return tEq(x, y)
+	case StrVal:
+		y, ok := b.(StrVal)
+		if !ok {
+			return tFalse
+		}
+		return strEq(x, y)
+	case FloatVal:
+		y, ok := b.(FloatVal)
+		return mkBool(ok && x.f == y.f)
+	case PtrVal:
+		y, ok := b.(PtrVal)
+		if !ok || (x.slot == nil) != (y.slot == nil) {
+			return tFalse
+		}
+		if x.slot == nil {
+			return tTrue
+		}
+		switch (*x.slot).(type) {
+		case *AbsKey, *AbsSet, *AbsSigner, *OptVal, *FmtErr, *RegexObj, *SnapObj:
+			return mkBool(*x.slot == *y.slot)
+		}
+		key := [2]*Value{x.slot, y.slot}
+		if seen[key] {
+			return tTrue // already being compared (shared or cyclic structure)
+		}
+		seen[key] = true
+		return snapEq(e, *x.slot, *y.slot, seen)
+	case *StructVal:
+		y, ok := b.(*StructVal)
+		if !ok || len(x.fields) != len(y.fields) {
+			return tFalse
+		}
+		r := tTrue
+		for i := range x.fields {
+			r = tAnd(r, snapEq(e, x.fields[i], y.fields[i], seen))
+		}
+		return r
+	case *ArrayVal:
+		y, ok := b.(*ArrayVal)
+		if !ok || len(x.elems) != len(y.elems) {
+			return tFalse
+		}
+		r := tTrue
+		for i := range x.elems {
+			r = tAnd(r, snapEq(e, x.elems[i], y.elems[i], seen))
+		}
+		return r
+	case SliceVal:
+		y, ok := b.(SliceVal)
+		if !ok || (x.arr == nil) != (y.arr == nil) || x.len != y.len {
+			return tFalse
+		}
+		r := tTrue
+		for i := 0; i < x.len; i++ {
+			r = tAnd(r, snapEq(e, x.arr.elems[x.off+i], y.arr.elems[y.off+i], seen))
+		}
+		// what lies in the spare capacity is state too (appends into it are writes)
+		for i := x.len; i < x.cap && i < y.cap; i++ {
+			r = tAnd(r, snapEq(e, x.arr.elems[x.off+i], y.arr.elems[y.off+i], seen))
+		}
+		return r
+	case MapVal:
+		y, ok := b.(MapVal)
+		if !ok || (x.m == nil) != (y.m == nil) {
+			return tFalse
+		}
+		if x.m == nil {
+			return tTrue
+		}
+		if len(x.m.entries) != len(y.m.entries) {
+			return tFalse
+		}
+		r := tTrue
+		for i := range x.m.entries {
+			r = tAnd(r, tAnd(snapEq(e, x.m.entries[i].key, y.m.entries[i].key, seen), snapEq(e, x.m.entries[i].val, y.m.entries[i].val, seen)))
+		}
+		return r
+	case IfaceVal:
+		y, ok := b.(IfaceVal)
+		if !ok || (x.typ == nil) != (y.typ == nil) {
+			return tFalse
+		}
+		if x.typ == nil {
+			return tTrue
+		}
+		if !types.Identical(x.typ, y.typ) && x.typ != y.typ {
+			return tFalse
+		}
+		return snapEq(e, x.val, y.val, seen)
+	case TupleVal:
+		y, ok := b.(TupleVal)
+		if !ok || len(x) != len(y) {
+			return tFalse
+		}
+		r := tTrue
+		for i := range x {
+			r = tAnd(r, snapEq(e, x[i], y[i], seen))
+		}
+		return r
+	case nil:
+		return mkBool(b == nil)
+	}
+	return tTrue // functions, types and other immutable values
 }
